@@ -119,7 +119,15 @@ def copy_isolation(v, tier, seed, name="python_copy_isolation"):
     return nviol
 
 
-def restore_probe(v, tier, seed, name="python_state_restore"):
+def order_probe(v, tier, seed):
+    """C11 for Python processes with the default state: the state text is the whole identity of such a process for the checker, so
+    it must tell apart what behaves differently — here a dict whose insertion order the process reports (vscript.ScriptProcOrder).
+    DFS/BFS, with and without the visited cache, must evaluate the same states."""
+    return restore_probe(v, tier, seed, name="python_dict_order", kind="pyo",
+                         combos=[("dfs", "disabled"), ("bfs", "disabled"), ("dfs", "full"), ("bfs", "full")], send_heavy=True)
+
+
+def restore_probe(v, tier, seed, name="python_state_restore", kind="pyd", combos=None, send_heavy=False):
     """C18 "saving and restoring its state round-trips every attribute", implementation against itself: Python processes with the
     library's default (pickle) state and an attribute that only exists after a timer fired (vscript.ScriptProcDefault.lazy).  DFS only
     ever restores ancestors, BFS restores arbitrary earlier states, a staged run restores collected ones: without a visited cache all
@@ -129,11 +137,14 @@ def restore_probe(v, tier, seed, name="python_state_restore"):
     from concurrent.futures import ThreadPoolExecutor
     rng = random.Random(seed * 8191 + 29)
     n = 40 if tier == "quick" else 600
-    combos = [("dfs", "disabled"), ("bfs", "disabled")]
+    combos = combos or [("dfs", "disabled"), ("bfs", "disabled")]
     scen = []
     for i in range(n):
-        prof = mc_suite.profile(**dict(PROF, proc_kind="pyd", record=0.0, p_timer=0.5, p_send=0.3, p_local=0.1, p_cancel=0.1, two_runs=0, staged=0,
+        prof = mc_suite.profile(**dict(PROF, proc_kind=kind, record=0.0, p_timer=0.5, p_send=0.3, p_local=0.1, p_cancel=0.1, two_runs=0, staged=0,
                                        terminating=True, p_fault=0.0, p_crash=0.0, nodes=(1, 2), procs=(1, 2), depth=(2, 4)))
+        if send_heavy:
+            prof = mc_suite.profile(**dict(PROF, proc_kind=kind, record=0.0, p_timer=0.2, p_send=0.6, p_local=0.1, p_cancel=0.1, two_runs=0, staged=0,
+                                           terminating=True, p_fault=0.0, p_crash=0.0, nodes=(2, 3), procs=(2, 3), depth=(2, 4), locals=(2, 3)))
         lines = mc_suite.gen_scenario(rng, prof)
         lines = [l.replace(":$", ':="e"') if l.startswith("rule") and l.split()[3].startswith("T:") else l for l in lines]
         lines = [re.sub(r"st:(p\d):\d", r"out:\1:1", l) if l.startswith(("run", "runfrom")) else l for l in lines]
@@ -154,12 +165,13 @@ def restore_probe(v, tier, seed, name="python_state_restore"):
         ncmp += 1
         ntimer += any("tfired" in l or "T(" in l for l in a)
         sets = [set(mc_suite.project(l, ["N", "E", "A"], False) for l in r["E"]) for r in runs]
-        if sets[0] != sets[1]:
+        if any(x != sets[0] for x in sets[1:]):
+            sets[1] = next(x for x in sets[1:] if x != sets[0])
             nviol += 1
             if nviol <= 3:
                 ex_ = sorted(sets[0] ^ sets[1])[:1]
-                v.violation(f"{name}-{nm}.txt", f"# property {v.pid}: DFS and BFS (no visited cache) evaluate different states of a system of Python processes with the "
-                            f"default state: restoring a saved state does not bring back exactly that state; e.g. {str(ex_)[:400]}\n"
+                v.violation(f"{name}-{nm}.txt", f"# property {v.pid}: {' / '.join(s_ + ' ' + c_ for s_, c_ in combos)} evaluate different states of a system of Python processes with the "
+                            f"default state: saving and restoring (or comparing) a state does not preserve exactly that state; e.g. {str(ex_)[:400]}\n"
                             f"# replay: /verif/check {v.pid} --replay <this file>\n" + "".join(l + "\n" for l in lines))
     v.coverage.setdefault(name, {}).update({"programs": ncmp, "programs_with_timers": ntimer, "violations": nviol,
         "rule": "Python processes with pickle state and a lazily created attribute; dfs vs bfs without cache must evaluate identical states incl. state texts"})
@@ -223,4 +235,39 @@ def sim_twin(v, tier, seed, name="python_sim_twin", n_quick=120, n_thorough=2000
     v.coverage.setdefault(name, {}).update({"programs": ncmp, "with_timer_firings": ntimers, "with_zero_delay_timers": nzero, "violations": nviol,
         "rule": "seeded simulations of generated script systems, Python processes behind the real bridge vs the Rust twin; every observation "
                 "of the simulator compared"})
+    return nviol
+
+
+def unpicklable_probe(v, tier, seed, name="python_unpicklable_state"):
+    """C18 "surfaces its exceptions as handler errors" / "round-trips every attribute", the save side: a Python process with the
+    default state that holds an attribute pickle cannot serialise (vscript.ScriptProcUnpicklable: a lambda).  Asking it for its
+    state raises; model checking such a system must not complete as if nothing had happened (a state saved without the
+    attribute loses it at the first restore)."""
+    from .common import run_blocks, VH, JOBS, chunks, STALL_S
+    rng = random.Random(seed * 3571 + 7)
+    n = 15 if tier == "quick" else 200
+    scen = []
+    for i in range(n):
+        prof = mc_suite.profile(**dict(PROF, proc_kind="pyu", record=0.0, two_runs=0, staged=0, terminating=True, p_fault=0.0, p_crash=0.0,
+                                       nodes=(1, 2), procs=(1, 2), depth=(2, 3)))
+        lines = mc_suite.gen_scenario(rng, prof)
+        lines = [l.replace(":$", ':="e"') if l.startswith("rule") and l.split()[3].startswith("T:") else l for l in lines]
+        lines = [re.sub(r"st:(p\d):\d", r"out:\1:1", l) if l.startswith(("run", "runfrom")) else l for l in lines]
+        scen.append((f"up{i}", lines))
+    o, _, _ = run_blocks([VH, "mc"], [mc_suite.block(nm, l) for nm, l in scen], STALL_S)
+    nviol = ncmp = 0
+    for nm, lines in scen:
+        a = o.get(nm, [])
+        hdr = next((l for l in a if l.startswith("run 0")), None)
+        if hdr is None:
+            continue
+        ncmp += 1
+        if "result=ok" in hdr:
+            nviol += 1
+            if nviol <= 3:
+                v.violation(f"{name}-{nm}.txt", f"# property {v.pid}: a Python process whose state cannot be pickled (it holds a lambda) was model checked to "
+                            f"completion (`{hdr}`): the exception raised by saving its state was not surfaced\n"
+                            f"# replay: /verif/check {v.pid} --replay <this file>\n" + "".join(l + "\n" for l in lines))
+    v.coverage.setdefault(name, {}).update({"programs": ncmp, "violations": nviol,
+        "rule": "systems of Python processes holding an unpicklable attribute: the first run must end with the process error, never with result=ok"})
     return nviol
